@@ -413,19 +413,28 @@ class Facts:
             eff = Effect(c, fn, bind, chain, self, outer, owith, path)
             if pred(eff):
                 out.append(eff)
-            callee = self.flow.resolve_call(c, fn) if depth > 0 else None
-            part = False
-            if depth <= 0:
-                callee = self.flow.resolve_call(c, fn)
-                part = callee is not None and self.private_part(callee, fn)
-                if not part:
-                    callee = None
+            callee = self.flow.resolve_call(c, fn)
+            if callee is None and depth > 0:
+                for m in self.flow.dynamic_methods(c, fn, bind):
+                    b = self.flow._bind_args_method(c, m, fn, bind, 0,
+                                                    set())
+                    self._effects(m, b, pred, depth - 1,
+                                  chain + (m.qualname,), stack, out,
+                                  outer | frozenset(self.control(
+                                      c, fn, bind)),
+                                  owith | frozenset(self.withs(
+                                      c, fn, bind)), path + ((fn, c),))
+            part = callee is not None and self.private_part(callee, fn)
+            if depth <= 0 and not part:
+                callee = None
             if depth > 0 or part:
                 if callee is not None:
                     b = self.flow._bind_args(c, callee, fn, bind, 0, set())
                     if self._is_nested_in(callee, fn):
                         nested_called.add(callee.fq)
-                    self._effects(callee, b, pred, max(depth - 1, 0),
+                    # a private part of fn does not use up depth
+                    self._effects(callee, b, pred,
+                                  depth if part else depth - 1,
                                   chain + (callee.qualname,), stack, out,
                                   outer | frozenset(self.control(
                                       c, fn, bind)),
@@ -521,15 +530,18 @@ class Facts:
                 if isinstance(n, (ast.FunctionDef, ast.AsyncFunctionDef)) \
                         and n is not f.node and getattr(n, '_func', None):
                     go(n._func, d)
-            for c in (Q.calls(f.node, nested=False) if d <= 0 else []):
+            for c in Q.calls(f.node, nested=False):
                 callee = self.flow.resolve_call(c, f)
                 if callee is not None and self.private_part(callee, f):
-                    go(callee, 0)
+                    go(callee, d)
             if d > 0:
                 for c in Q.calls(f.node, nested=False):
                     callee = self.flow.resolve_call(c, f)
                     if callee is not None:
                         go(callee, d - 1)
+                    else:
+                        for m in self.flow.dynamic_methods(c, f):
+                            go(m, d - 1)
                     # repository functions passed as values (callbacks,
                     # functools.partial, map, ...)
                     for a in list(c.args) + [k.value for k in c.keywords]:
@@ -565,8 +577,8 @@ class Facts:
                     for b_ in self.spec_binds(c0, f, b):
                         cb = self.flow._bind_args(c0, callee, f, b_, 0,
                                                   set())
-                        go(callee, cb, max(d - 1, 0), stack | {f.fq},
-                           path + ((f, c0),))
+                        go(callee, cb, d if self.private_part(callee, f)
+                           else d - 1, stack | {f.fq}, path + ((f, c0),))
         go(fn, None, depth, frozenset(), ())
         return out
 
@@ -593,7 +605,8 @@ class Facts:
                     if callee is not None and (
                             d > 0 or self.private_part(callee, f)):
                         cb = self.flow._bind_args(c, callee, f, b, 0, set())
-                        go(callee, cb, max(d - 1, 0), stack | {f.fq})
+                        go(callee, cb, d if self.private_part(callee, f)
+                           else d - 1, stack | {f.fq})
         go(fn, None, depth, frozenset())
         return out
 
@@ -781,6 +794,16 @@ class Facts:
                         for d in self._def_sites(nm.id, fn):
                             out |= self.control(d, fn, bind, _depth + 1,
                                                 _seen)
+                            # flag = helper(..): what decides the value the
+                            # helper returns
+                            v = getattr(d, 'value', None)
+                            if isinstance(v, ast.Call) and _depth < 2:
+                                callee = self.flow.resolve_call(v, fn)
+                                if callee is not None and callee is not fn:
+                                    b = self.flow._bind_args(
+                                        v, callee, fn, bind, 0, set())
+                                    out |= self.return_control(
+                                        callee, b, _depth + 1)
                         out |= self._unpacked_flag_control(nm.id, fn, bind,
                                                            _depth, _seen)
         return out
@@ -1276,6 +1299,23 @@ class Facts:
                                              self.repo.local_scope(fn))
             except Exception:
                 res = None
+            if (res is None or res[0] != 'class') and isinstance(
+                    r.func, ast.Attribute) and isinstance(
+                        r.func.value, ast.Name) and r.func.value.id in (
+                            'self', 'cls') and fn.cls is not None:
+                # a class nested in (or aliased as an attribute of) the
+                # method's own class
+                nested = self.repo.classes.get(
+                    fn.cls.fq + '.' + r.func.attr)
+                if nested is not None:
+                    res = ('class', nested)
+                else:
+                    o_, v_ = fn.cls.find_attr(r.func.attr)
+                    if isinstance(v_, (ast.Name, ast.Attribute)):
+                        try:
+                            res = self.repo.resolve_expr(fn.module, v_, None)
+                        except Exception:
+                            res = None
             if res is None or res[0] != 'class':
                 return None
             ci = res[1]
